@@ -120,8 +120,10 @@ def run(prog):
                     if "T" in arms and kind(arms["T"]) != want_true:
                         errs.append("under `%s` the leaf returns the %s pair: the worse of the two is kept"
                                     % (show(c)[:70], kind(arms["T"])))
-            elif (c[0] == "bin" and c[1] == "Eq") or mir.is_call(c, "eq"):
+            elif (c[0] == "bin" and c[1] in ("Eq", "Ne")) or mir.is_call(c, "eq") or mir.is_call(c, "ne"):
                 a, b = (c[2], c[3]) if c[0] == "bin" else (c[2][0], c[2][1])
+                if (c[0] == "bin" and c[1] == "Ne") or mir.is_call(c, "ne"):
+                    arms = {"T": arms.get("F"), "F": arms.get("T")}   # a != b: the arms trade places
                 a, b = strip(a), strip(b)
                 ch = b if mir.is_call(b, "choose") else (a if mir.is_call(a, "choose") else None)
                 other = a if ch is b else b
@@ -181,14 +183,22 @@ def run(prog):
                 if not (is_ucall(ub, uname) and len(ub[2]) >= 4):
                     errs.append("?order entry's first component %s is not a call of %s" % (show(ub)[:40], uname))
                     continue
-                if model_site(ub[2][1]) != ms or ms is None:
+                if ms is None or model_site(ub[2][1]) is None:
+                    # the models are not built by `set` in this function (e.g. a helper returns them): compare the terms
+                    if strip(ub[2][1]) != strip(m) and unclone(ub[2][1]) != unclone(m):
+                        errs.append("an order entry pairs a model with the upper bound computed for a different model (%s vs %s)"
+                                    % (show(m)[:40], show(ub[2][1])[:40]))
+                elif model_site(ub[2][1]) != ms:
                     errs.append("an order entry pairs the model of one branch with the upper bound computed for the other branch")
                 vs = show(strip(ub[2][2]))
                 if "subslice" not in vs:
                     errs.append("the bound of a branch is computed over %s, not over the remaining variables" % vs[:50])
                 if strip(ub[2][3]) != P_WMC:
                     errs.append("the bound is computed with other weights than the search's")
-            if len(set(sites)) != 2 or (models and set(sites) != set(models)):
+            if None in sites:
+                if len({repr(unclone(m)) for _, m in pairs}) != 2:
+                    errs.append("the branching order lists the same model twice")
+            elif len(set(sites)) != 2 or (models and set(sites) != set(models)):
                 errs.append("the branching order does not contain both branch models (%s)" % sites)
         put("BB3:order", errs, "each order lists both models, each with the bound computed for it over the remaining variables")
         # ---- BB4 / BB5
@@ -235,7 +245,10 @@ def run(prog):
                             x, y = strip(x), unclone(y)
                             kx = "mu" if x == lb_mu else ("in" if x == P_LB else ("rec" if x[0] == "field" and x[2] == "0" and mir.is_call(strip(x[1]), sname) else "?"))
                             ky = "mu" if y == best_mu else ("in" if y == P_BEST else ("rec" if y[0] == "field" and y[2] == "1" and mir.is_call(strip(y[1]), sname) else "?"))
-                            if kx != ky or kx == "?":
+                            if kx == "?" or ky == "?":
+                                errs.append("?running best update not recognised (%s, %s)" % (show(x)[:40], show(y)[:40]))
+                                break
+                            if kx != ky:
                                 errs.append("the running best becomes (%s, %s): value and witness no longer belong together"
                                             % (show(x)[:40], show(y)[:40]))
                                 break
